@@ -9,6 +9,8 @@ import (
 	"time"
 
 	"github.com/samaritan-proxy/samaritan/host"
+	"github.com/samaritan-proxy/samaritan/pb/config/protocol"
+	"github.com/samaritan-proxy/samaritan/pb/config/service"
 
 	"verif.local/sim/cluster"
 	"verif.local/sim/harness"
@@ -219,6 +221,19 @@ func (w *redisWorld) outstanding() int {
 		}
 	}
 	return n
+}
+
+func (w *redisWorld) clientByName(name string) *world.Client {
+	for _, c := range w.env.Clients {
+		if c.Name == name {
+			return c
+		}
+	}
+	return nil
+}
+
+func wrapRedisOption(o *protocol.RedisOption) *service.Config_RedisOption {
+	return &service.Config_RedisOption{RedisOption: o}
 }
 
 // outstandingConns: number of connections with at least one unanswered request.
